@@ -107,10 +107,7 @@ public:
 	{
 		if(this->length() != s.length())
 			return false;
-		Enumerator e1 = this->all(), e2 = s.all();
-		for(; e1; ++e1, ++e2)
-			if(*e1 != *e2) return false;
-		return true;
+		return contains(s); // same size and every item of s is here; enumeration order is not comparable
 	}
 	/**
 	Returns true if both sets don't have the same items
